@@ -1160,8 +1160,9 @@ class Epoch(object):
             j -= 365
             x += 1
 
-        # Check if date is in Gregorian calendar. '277' is DOY of October 4th
-        if (x > 1583) or (x == 1582 and j > 277):
+        # Check if date is in Gregorian calendar. '277' is DOY of October 4th.
+        # Day 0 of a year (31 December of the previous one) also goes this way
+        if (x > 1582) or (x == 1582 and j > 277) or j < 1:
             jd = iint(365.25 * (x - 1.0)) + 1721423 + j
             alpha = iint((jd - 1867216.25) / 36524.25)
             beta = jd if jd < 2299161 else (jd + 1 + alpha - iint(alpha / 4.0))
